@@ -588,6 +588,100 @@ def rule_noop(ctx, rep):
             r.ok(inst, loc_str(b.f, s[3]))
 
 
+def rule_linecol(ctx, rep, rid="R-C05-linecol"):
+    """A token's (line, col) pair is only right if a new line restarts the column.  In lexer::tokenize: whenever `line` is advanced, `col`
+    is re-based (assigned a value that does not depend on its old value) in the same iteration - before the line write (dominating it,
+    with no relative update in between) or on every path after it before the next token is taken."""
+    r = rep.rule(rid, "lexer::tokenize: every advance of `line` comes with an absolute assignment of `col` in the same loop iteration "
+                      "(a column carried over a line break shifts every later token of that line)", floor=2, floor_what="writes to `line`")
+    lb = ctx.prog.get("ironplc_parser::lexer::tokenize")
+    if not lb:
+        rep.error(rid, "lexer::tokenize not found")
+        return
+    b = lb[0]
+    loc = {name: l for l, (ty, name) in enumerate(b.f["locals"]) if name in ("line", "col")}
+    if set(loc) != {"line", "col"}:
+        r.finding("lexer::tokenize|counters", "%s:%d" % (b.f["file"], b.f["line"]), "no locals named line and col")
+        return
+    LINE, COL = loc["line"], loc["col"]
+
+    def derived_from(l, target, seen=None):
+        """does the value of temp `l` depend on local `target`?"""
+        seen = seen or set()
+        if l == target:
+            return True
+        if l in seen:
+            return False
+        seen.add(l)
+        for d in b.defs.get(l, []):
+            if d[0] == "stmt":
+                ops = rvalue_operands(d[3])
+                if d[3][0] in ("ref",):
+                    ops = [["cp", d[3][2]]]
+                for o in ops:
+                    p = op_place(o)
+                    if p is not None and derived_from(p[0], target, seen):
+                        return True
+            else:
+                for o in d[2].args:
+                    p = op_place(o)
+                    if p is not None and derived_from(p[0], target, seen):
+                        return True
+        return False
+    heads = {c.bb for c in b.calls() if (c.u or "") == "core::iter::traits::iterator::Iterator::next"}
+    line_w, col_abs, col_rel = [], set(), set()
+    for i, j, s in b.all_stmts():
+        if s[0] != "=" or s[1][1]:
+            continue
+        if s[1][0] == LINE and i != 0:
+            ops = [op_place(o) for o in rvalue_operands(s[2])]
+            if any(p is not None and derived_from(p[0], LINE) for p in ops):
+                line_w.append((i, j, s))
+        if s[1][0] == COL:
+            ops = [op_place(o) for o in rvalue_operands(s[2])]
+            if any(p is not None and derived_from(p[0], COL) for p in ops):
+                col_rel.add(i)
+            else:
+                col_abs.add(i)
+    dom = b.dominators()
+    k = 0
+    for i, j, s in sorted(line_w, key=lambda t: (t[2][3][0], t[2][3][1])):
+        k += 1
+        inst = "lexer::tokenize|line advance #%d" % k
+        # after: from this block onwards, can a loop head be reached without an absolute col write?  (the block itself counts if the
+        # absolute write comes after the line write in it)
+        later_here = any(jj > j and ss[0] == "=" and ss[1] == [COL, []] and i in col_abs for jj, ss in enumerate(b.bbs[i]["s"]))
+        ok_after = later_here
+        if not ok_after:
+            seen, st, bad = set(), list(b.succ(i)), False
+            while st:
+                x = st.pop()
+                if x in seen:
+                    continue
+                seen.add(x)
+                if x in col_abs:
+                    continue
+                if x in heads or b.term(x)[0] == "ret":
+                    bad = True
+                    break
+                st.extend(b.succ(x))
+            ok_after = not bad
+        # before: an absolute write that dominates this block inside the same iteration, no relative update between
+        ok_before = False
+        inner = [h for h in heads if h in dom.get(i, set())]
+        for w in col_abs:
+            if w in dom.get(i, set()) and w != i and all(h in dom.get(w, set()) for h in inner):
+                between = b.reachable(w, avoid={i}) & {x for x in col_rel if i in b.reachable(x)}
+                if not between:
+                    ok_before = True
+        if ok_after or ok_before:
+            r.ok(inst, loc_str(b.f, s[3]), "col re-based " + ("after" if ok_after else "before") + " the line advance")
+        else:
+            r.finding(inst + "|col-carried-over", loc_str(b.f, s[3]), "`line` advances but `col` keeps (or only adds to) its old value on some path to the next token: "
+                      "tokens after a line break inside this token get a column shifted by the previous line's column")
+    r.note("%d line advances, %d absolute / %d relative col writes" % (len(line_w), len(col_abs), len(col_rel)))
+
+
 BYTE_FIELDS = {("ironplc_dsl::diagnostic::Location", "start"), ("ironplc_dsl::diagnostic::Location", "end"),
                ("ironplc_dsl::core::SourceSpan", "start"), ("ironplc_dsl::core::SourceSpan", "end")}
 BYTE_CALLS = re.compile(r"(^|::)(core::str::(<impl str>::)?(len|find|rfind|find_map|match_indices|rmatch_indices|char_indices|as_bytes|bytes)|"
@@ -630,7 +724,7 @@ def rule_units(ctx, rep, rid="R-C05-units"):
 
 def run(ctx, rep):
     rep.not_decided += ["tiling/contiguity of token spans, line/column arithmetic values, CRLF and multi-byte behaviour", "that a label covers the *right* construct",
-                        "observation (not claimed): the OSCAT pre-processor blanks per character, shifting offsets after non-ASCII header text"]
+                        ]
     rep.assumptions += ["logos Lexer::span()/slice() describe the same match", "peg position!() values are token indices"]
     rule_prov(ctx, rep)
     rule_fold(ctx, rep)
@@ -639,3 +733,6 @@ def run(ctx, rep):
     rule_noop(ctx, rep)
     rule_units(ctx, rep)
     rule_pair(ctx, rep)
+    rule_linecol(ctx, rep)
+    from rules import c05_blank
+    c05_blank.run(ctx, rep)
